@@ -26,6 +26,7 @@ func runC39(c *Ctx) {
 	r.Exhaustive = true
 	r.Rule("C39.R1", "on every path of SetConfiguration, a store into an immutable field of pc.configuration (PeerIdentity, Certificates, BundlePolicy, RTCPMuxPolicy, ICECandidatePoolSize with a local description) writes a value equal to the current one", 2000)
 	r.Rule("C39.R2", "a requested change of an immutable setting makes every outcome an *rtcerr.InvalidModificationError; a closed connection yields InvalidStateError", 2000)
+	r.Rule("C39.R4", "same rule as C14.R7 / C38.R4: Certificate.Equals, the test SetConfiguration uses to detect a changed certificate, answers true only via x509Cert.Equal and compares no key material by identity (a different certificate for the same key is a change)", 6)
 	r.Rule("C39.R3", "a failing call leaves GetConfiguration unchanged: every store that precedes an error return writes the current value (no partial changes; ICE-server validation precedes the unguarded stores)", 2000)
 	r.NotCovered = append(r.NotCovered, "deep equality / aliasing of the slices returned by GetConfiguration", "what ICEGatherer.updateServers does with the new servers")
 	r.Trusted = append(r.Trusted, "absint soundness on the supported fragment", "data-independence: field values are only compared for equality")
@@ -35,6 +36,7 @@ func runC39(c *Ctx) {
 	if fi == nil || certEq == nil {
 		return
 	}
+	c14CertEquals(c, "C39.R4", "C39.R4") // c14extra.go
 	pos := c.P.Pos(fi.Decl.Pos())
 	bp, ok1 := enumDomain(c, "C39.R1", "", "BundlePolicy", 77)
 	rm, ok2 := enumDomain(c, "C39.R1", "", "RTCPMuxPolicy", 77)
